@@ -326,3 +326,23 @@ pub fn second_pv_slot(opts: &[Vec<V>]) -> Vec<Letter> {
     }
     s
 }
+
+/// RATIO: one lighting use of 10 kWh under PV on a geometric grid from 0.01 to 10 000 kWh, beside a cogenerator of three
+/// sizes on gas or biomass and a non-EPB use of three sizes: production/use ratios and shares of one source in the exported
+/// energy from 1e-3 to 1e3 (T = 2: the second step runs through the grid in the opposite direction)
+pub fn ratio_slots() -> Vec<Vec<Letter>> {
+    let grid: [V; 10] = [0, 1, 10, 100, 300, 1000, 3000, 10000, 100000, 1000000];
+    let mut pv = vec![];
+    for (i, g) in grid.iter().enumerate() {
+        let v = vec![*g, grid[grid.len() - 1 - i]];
+        pv.push(if v.iter().all(|x| *x == 0) { Letter::many(vec![]) } else { Letter::one(p(Some(0), "EL_INSITU", &v)) });
+    }
+    let mut chp = vec![Letter::many(vec![])];
+    for fuel in ["GASNATURAL", "BIOMASA"] {
+        for e in [50, 500, 5000] {
+            chp.push(Letter::many(vec![p(Some(2), "EL_COGEN", &[e, e]), u(Some(2), "COGEN", fuel, &[3 * e, 3 * e])]));
+        }
+    }
+    let nepb = vec![Letter::many(vec![]), Letter::one(u(Some(0), "NEPB", "ELECTRICIDAD", &k(&[5, 5]))), Letter::one(u(Some(0), "NEPB", "ELECTRICIDAD", &k(&[500, 500])))];
+    vec![vec![Letter::one(u(Some(0), "ILU", "ELECTRICIDAD", &k(&[10, 10])))], pv, chp, nepb]
+}
